@@ -22,6 +22,14 @@ def mod(name):
     return importlib.import_module("ladim_plugins.%s.ibm" % name)
 
 
+def lice_surface_light():
+    """the surface-light function the salmon lice module calls *now*: its own name `surface_light` (the package's copy,
+    since fix 2a83b24) or `light.surface_light` of whatever module it imports as `light` (LADiM's copy before)"""
+    m = mod("salmon_lice")
+    f = getattr(m, "surface_light", None)
+    return f if f is not None else m.light.surface_light
+
+
 def cfg_dt(case):
     """the time step as the configuration carries it: an int when the case asks for it (and it is integral)"""
     dt = case["dt"]
@@ -740,10 +748,12 @@ def lice_run(case, seed, drv=None, inject=None, ibm=None, state=None):
     expected = [("rand", (n,))] + ([("normal", (n,))] if case["D"] > 0 else [])
     got = rec.schedule()
     res = dict(before=before, after=after, model=None, sched=(expected, got), meta={}, n=n, state=state, ibm=ibm)
-    from ladim.ibms import light as ladim_light
     lon, lat = env.lonlat(case["x"], case["y"])
-    light0 = ladim_light.surface_light(case["ts"], lon, lat) if n else np.zeros(0)
+    light0 = lice_surface_light()(case["ts"], lon, lat) if n else np.zeros(0)
     res["meta"]["light0"] = light0
+    # recorded draws for the oracles: `r` the uniform draw of the salinity tolerance, `xi` the normal draw (None: no mixing)
+    res["r"] = rec.log[0][3] if expected == got else None
+    res["xi"] = rec.log[1][3] if (expected == got and case["D"] > 0) else None
     if drv is not None and expected == got:
         r = rec.log[0][3]
         xi = rec.log[1][3] if case["D"] > 0 else None
@@ -838,6 +848,10 @@ def larvae_run(case, seed, drv=None, inject=None, ibm=None, state=None):
                 del conf["vertical_mixing"]
         conf.update(case["over"])
         ibm = ibm or mod("larvae").IBM(dict(dt=cfg_dt(case), ibm=conf))
+    if case.get("force_normal") is not None:
+        # optional case key (as in egg_run): every normal draw of the update is `force_normal`; with 0.0 the mixing
+        # term vanishes, which is the only way to observe saithe's deterministic velocity (its D is hard-coded)
+        inject = forced(inject, case["force_normal"])
     direction = case["direction"].copy() if (spread and "direction" in case) else np.zeros(n)
     state = state or real_state(dt=case["sdt"], timestamp=case["ts"], alive=alive0(case), X=case["x"].copy(),
                                 Y=case["y"].copy(),
